@@ -127,6 +127,8 @@ func (do *ObjectContainer) PutItemAwareByName(name string, itemAware IItemAware)
 
 func (do *ObjectContainer) Clone() map[string]IItem {
 	out := make(map[string]IItem)
+	do.mu.RLock()
+	defer do.mu.RUnlock()
 	for name, item := range do.dataObjects {
 		value := item.Get()
 		if value != nil {
@@ -241,6 +243,8 @@ func (p *PropertyContainer) PutItemAwareByName(name string, itemAware IItemAware
 
 func (p *PropertyContainer) Clone() map[string]IItem {
 	out := make(map[string]IItem)
+	p.mu.RLock()
+	defer p.mu.RUnlock()
 	for name, item := range p.items {
 		value := item.Get()
 		if value != nil {
